@@ -374,14 +374,15 @@ func (db *DB) appendLogRecord(logRecord *datafile.LogRecord) (*datafile.DataPos,
 		}
 	}
 
+	sizeBefore := db.activeFile.Size()
 	pos, err := db.activeFile.WriteLogRecord(logRecord, db.logRecordHeader)
 	if err != nil {
 		return nil, err
 	}
 	// 维护总数据量
 	db.totalSize += int64(pos.Size)
-	// 维护累计写入数据量
-	db.bytesWrite += uint(pos.Size)
+	// 维护累计写入数据量, 包含 block 末尾的填充字节
+	db.bytesWrite += uint(db.activeFile.Size() - sizeBefore)
 
 	// 执行配置的持久化策略
 	syncStrategy := db.options.SyncStrategy
